@@ -303,11 +303,16 @@ def billing_day_start(d, z):
 
 def gen_billing(rng, k):
     z = rng.choice(tzdays.ZONES)
-    style = rng.choice(["monthly", "monthly", "monthly", "bimonthly", "mixed", "regular", "dst-edge"])
-    n = rng.randrange(6, 15)
+    style = rng.choice(["monthly", "monthly", "monthly", "bimonthly", "mixed", "regular", "dst-edge", "weeks"])
+    n = rng.randrange(6, 15) if style != "weeks" else rng.randrange(3, 10)
     d = dt.date(rng.randrange(2012, 2025), rng.randrange(1, 13), rng.randrange(1, 29))
     lens = []
-    if style == "regular":
+    if style == "weeks":
+        # a calendar read on an exact cycle of whole weeks, always on the same weekday at local midnight (pandas infers
+        # 'nW-XXX'): 4 weeks = a monthly meter, 8 / 9 weeks = a bi-monthly one whose every period is valid
+        L = 7 * rng.choice([4, 8, 9, 8, 9, 5, 6, 10])
+        lens = [L] * n
+    elif style == "regular":
         L = rng.choice([28, 29, 30, 31, 33, 35, 42, 60, 61])
         lens = [L] * n
         if rng.random() < 0.4:
@@ -354,6 +359,8 @@ def gen_billing(rng, k):
     for i in range(len(stamps) - 1):
         r = rng.random()
         vals.append(None if r < 0.04 else rng.randrange(1, 2 ** 15))
+    if style == "weeks" and rng.random() < 0.8:
+        vals = [rng.randrange(1, 2 ** 15) if v is None else v for v in vals]        # fully billed
     est = [rng.random() < 0.2 for _ in vals]
     elec = rng.random() < 0.3
     if rng.random() < 0.3 and vals:
@@ -820,6 +827,17 @@ def oracle_billing_days(cs, bs, got, path, last_stamp=None):
             i = m + 1
         else:
             i += 1
+    # the statement's reading of the calendar: a meter whose typical period is above 35 days is bi-monthly (36..70-day
+    # periods are valid), one whose typical period is at most 30 days is monthly (they are off-cycle); in between, and
+    # with unbilled periods around, it is left to the code's own rule ("either conserved or dropped")
+    med_all = median(lens)
+    med_body = median(lens[:-1]) if len(lens) > 1 else med_all
+    kind = None
+    if not any(unbilled_at(q) for q in range(n)):
+        if med_all > 35 and med_body > 35:
+            kind = "bimonthly"
+        elif med_all <= 30 and med_body <= 30:
+            kind = "monthly"
     df_final_value = cs["format"] != "from_series" and cs["last_value"] is not None \
         and not (cs["elec"] and cs["last_value"] == 0)
     last_day_len = stamps[-1] - tzdays.day_start(tzdays.local_date(stamps[-1], z) - dt.timedelta(days=1), z)
@@ -877,10 +895,19 @@ def oracle_billing_days(cs, bs, got, path, last_stamp=None):
                 fails.append((sig("valid period not conserved"), "%s: period %d of %d days billed %s, its days sum to %s (%d missing)" % (
                     path, i, L, float(v), float(total), sum(x is None for x in inside))))
             continue
-        # 36..70 days: valid for a bi-monthly meter, off-cycle for a monthly one; either way all-or-nothing
+        # 36..70 days: valid for a bi-monthly meter, off-cycle for a monthly one; all-or-nothing in any case
         if not missing_all and (any(x is None for x in inside) or not fclose(total, v)):
             fails.append((sig("period neither conserved nor dropped"), "%s: period %d of %d days billed %s, its days sum to %s" % (
                 path, i, L, float(v), float(total))))
+        elif kind == "bimonthly" and missing_all and not (elapsed_days != L and L == 71) \
+                and not (final and (last_day_len != 1440 or off_hour)) and i not in run_of:
+            # the calendar is unmistakably bi-monthly (typical period above 35 days): this period is valid
+            fails.append((sig("valid period of a bi-monthly meter dropped"),
+                          "%s: period %d of %d days billed %s of a calendar whose typical period is %s days is dropped "
+                          "(all %d days missing)" % (path, i, L, float(v), float(med_all), len(inside))))
+        elif kind == "monthly" and not missing_all and not (elapsed_days != L and L == 36) and i not in run_of:
+            fails.append((sig("off-cycle period kept"), "%s: period %d of %d days of a calendar whose typical period is %s "
+                          "days (a monthly meter) is not dropped" % (path, i, L, float(med_all))))
     return fails
 
 
